@@ -163,10 +163,24 @@ def set_net(rbm, net, B):
         rbm.hidden_bias.copy_(torch.tensor(net["c"], dtype=torch.double) * lnB)
 
 
+_SCRATCH = [0]
+
+
+def _scratch_spaces(s):
+    """The enumerations of basis states the library hands out are the caller's tensors: every few states one caller
+    uses them as scratch memory (as sample(..., initial_state=space, overwrite=True) would) - whatever the library
+    computes afterwards, for this or any other state, must not be looking at them."""
+    _SCRATCH[0] += 1
+    if _SCRATCH[0] % 4 == 0:
+        for k in range(1, s.num_visible + 1):
+            s.generate_hilbert_space(k).fill_(0.5)
+    return s
+
+
 def positive_state(pt):
     s = _pooled(("positive", pt["nv"], pt["nh"]), lambda: PositiveWaveFunction(pt["nv"], pt["nh"], gpu=False))
     set_net(s.rbm_am, pt["am"], pt["B"])
-    return s
+    return _scratch_spaces(s)
 
 
 _MODULE_ROT = [0]
@@ -182,11 +196,11 @@ def complex_state(pt, via_module=False):
         set_net(rbm, pt["am"], pt["B"])
         s = ComplexWaveFunction(pt["nv"], module=rbm, gpu=False)
         set_net(s.rbm_ph, pt["ph"], pt["B"])
-        return s
+        return _scratch_spaces(s)
     s = _pooled(("complex", pt["nv"], pt["nh"]), lambda: ComplexWaveFunction(pt["nv"], pt["nh"], gpu=False))
     set_net(s.rbm_am, pt["am"], pt["B"])
     set_net(s.rbm_ph, pt["ph"], pt["B"])
-    return s
+    return _scratch_spaces(s)
 
 
 _LAYOUT = [0]
@@ -276,7 +290,7 @@ def density_state(pt):
         else:
             with torch.no_grad():
                 getattr(rbm, name).copy_(v)
-    return s
+    return _scratch_spaces(s)
 
 
 def rows(n):
